@@ -393,6 +393,14 @@ def run_http(chk, built, tref, treedefs):
                         r = cl.req("PUT", "/%s/%s" % (bucket, k), body=b"" if k.endswith("/") else b"x" * rnd.randrange(1, 50))
                         if r.status == 200: vids.setdefault(k, []).append(r.headers.get("x-amz-version-id"))
                         hist.append("put %s -> %d" % (k, r.status))
+                # uploads the gateway refuses (a digest that does not match, a body shorter than declared) into prefixes that do not exist yet
+                for k in rnd.sample(["ghost/a/b", "docs/ghost/x", "gh/o/s/t", "top-ghost"], 2):
+                    how = rnd.choice(["md5", "crc32", "short"])
+                    if how == "md5": r = cl.req("PUT", "/%s/%s" % (bucket, k), body=b"refused", headers={"Content-MD5": "AAAAAAAAAAAAAAAAAAAAAA=="})
+                    elif how == "crc32": r = cl.req("PUT", "/%s/%s" % (bucket, k), body=b"refused", headers={"x-amz-checksum-crc32": "AAAAAA=="})
+                    else: r = cl.req("PUT", "/%s/%s" % (bucket, k), body=b"refused-and-short", send_body=b"refu", content_length=17, timeout=3)
+                    hist.append("refused put (%s) %s -> %d" % (how, k, r.status))
+                    if r.status == 200: vids.setdefault(k, []).append(r.headers.get("x-amz-version-id"))
                 gone = rnd.sample(sorted(vids), rnd.randrange(1, len(vids) + 1))
                 for k in gone:
                     how = rnd.choice(["by-version", "marker-then-versions", "versions-then-plain"]) if venabled else "plain"
